@@ -58,9 +58,14 @@ UNITS = {
         {"name": "C19_PARSE", "test": "TestC19_PARSE", "quick": 8000, "thorough": 150000, "shards": 4},
         {"name": "C19_FUZZ", "test": "FuzzRDPParse", "quick": 0, "thorough": 0, "shards": 1, "fuzz": True, "fuzztime_thorough": "120s", "exclusive": True},
     ],
+    "C20": [
+        {"name": "C20_FN", "test": "TestC20_FN", "quick": 320, "thorough": 6000, "shards": 16, "shrink": "90s", "budget_quick": 900},
+    ],
 }
 
 RULES = {
+    "C20": "case = (1-2 realms x 1-3 fake KDCs on TCP+UDP with behaviour reply / reply-and-keep-open / partial / close / silent / refuse, request realm absent / configured / other configured / unknown, Kerberos payload 0 B - 128 KiB, malformed request kinds); "
+           "non-trivial = a well-formed request for a configured realm, or a malformed one that passes the method/length checks",
     "C14": "case = (user database of 1-5 users incl. empty passwords, duplicates and names differing only in case; sequence of 1-10 operations negotiate / authenticate(session, named user, key user, key password, domain, challenge source) / replay / garbage / bad base64 over 4 sessions); "
            "type-3 messages are built by the harness's own NTLMv2 implementation; non-trivial = a second attempt in a session, a proof keyed for another user, a foreign or stale challenge, or a replay",
     "C15": "case = (key mode, user name, 1-4 requests: a member of the token family around a minted token - single-character/bit mutations of each of the five JWE segments, other keys/enc/alg/issuer, expiry offsets, the other mode's token, plain JWS, garbage - with method and parameter variations); "
